@@ -248,6 +248,11 @@ func handleInsertValues(p *InsertPlan) error {
 				return fmt.Errorf("find table index error: %v", err)
 			}
 			p.result.Inter([]int{routeIdx})
+		default:
+			// same for INSERT ... SET: without this the statement is refused later only
+			// because one statement meets several tables, and is written unrouted when
+			// the rule has a single table
+			return fmt.Errorf("sharding value must be a constant, got %T", valueItem)
 		}
 		p.rewriteStmts = append(p.rewriteStmts, p.stmt)
 		return nil
@@ -280,6 +285,11 @@ func handleInsertValues(p *InsertPlan) error {
 			if err != nil {
 				return fmt.Errorf("find table index error: %v", err)
 			}
+		default:
+			// the sharding value is an expression (-5, 2+1, abs(3), ...) that is not
+			// evaluated here: the row cannot be routed, so the statement is refused
+			// instead of silently leaving the row out of the rewritten statements
+			return fmt.Errorf("sharding value must be a constant, got %T", valueItem)
 		}
 	}
 
